@@ -109,6 +109,12 @@ def check_trace(surfs, recs, scale_tol=1e-7):
             q = p[0] ** 2 + p[1] ** 2 + (1 + k) * p[2] ** 2 - 2 * R * p[2]
             if abs(q) > 1e-7 * (size ** 2 + abs(R) * size):
                 bad.append({'surface': si + 1, 'kind': 'off-surface', 'shape': s['shape'][0], 'detail': f'hit not on the conic (quadric residual {q:.3e})'})
+            # the prescribed shape is the sheet of the quadric through the vertex, z = sag(x, y): a point of the quadric
+            # lies on it iff (R - (1+k) z) R >= 0 (theorem C02_sheet_is_sag_sheet); the other sheet of a hyperboloid /
+            # the far half of an ellipsoid is not the surface
+            elif math.isfinite(R) and (R - (1 + k) * p[2]) * R < -1e-9 * (R * R + abs(R) * size):
+                bad.append({'surface': si + 1, 'kind': 'wrong-sheet', 'shape': 'std', 'conic': k,
+                            'detail': f'hit at z = {p[2]:.6g} lies on the quadric but not on the sheet through the vertex (sag there = {zs:.6g})'})
         elif abs(p[2] - zs) > tol_pos:
             bad.append({'surface': si + 1, 'kind': 'off-surface', 'shape': s['shape'][0], 'detail': f'hit off the surface by {p[2]-zs:.3e}'})
         # 1b. a conic is met on the half line leaving the previous point: the closed-form intersection discards roots
